@@ -167,6 +167,48 @@ def _rand(g, shape, lo, hi):
     return lo + (hi - lo) * torch.rand(shape, generator=g, dtype=DT)
 
 
+# units of measurement.  Every functional is homogeneous in the unit of its data (a linear system / an integral / an interpolant in the
+# unit of the right-hand side / integrand / ordinates, an eigenproblem in the unit of A, a root in the unit of the residual) and the
+# gradients are linear in the cotangent: values and gradients in small or large units are the unit-1 values times the unit.  All error
+# bounds of the docstring are relative, so the comparison scales become  unit + max|reference|  instead of  1 + max|reference|.
+UNITS_FULL = [1e-12, 1e-9, 1e-6, 1e-3, 1.0, 1.0, 1e3, 1e6]
+COTS_FULL = [1e-10, 1e-7, 1e-4, 1.0, 1.0, 1e3, 1e6]
+
+
+def unit_choices(fn, exact):
+    """admissible units of the data of `fn`; exact = the gradients are compared with the closed-form reference (otherwise only
+    bit-for-bit between two spellings / a wrapped built-in and its name, where any unit is admissible that keeps the iterations finite)"""
+    if fn == "symeig":
+        # eigenvalue gaps are >= 0.5 unit; the implicit backward treats gaps below degen_atol (an ABSOLUTE, documented threshold,
+        # default eps^0.6 = 4e-10, drawn values <= 1e-7) as degenerate: units >= 1e-4 keep the spectrum separated by that criterion
+        return [1e-4, 1e-2, 1.0, 1.0, 1e3, 1e6]
+    if fn == "svd":
+        return [1e-2, 1e-1, 1.0, 1.0, 1e2, 1e3]      # the Gram operator carries the square of the unit
+    if fn == "equilibrium":
+        return [1e-12, 1e-9, 1e-6, 1e-3, 1.0, 1.0]   # y -> y - d (sinh(K y) - c) stays a contraction for d <= 0.5
+    if fn in ("rootfinder", "minimize"):
+        return UNITS_FULL if exact else [1e-12, 1e-9, 1e-6, 1e-3, 1.0, 1.0]   # built-in iterations stay finite for residual units <= 1
+    if fn == "solve_ivp":
+        # the adaptive integrator of the backward pass measures its error by rtol * |augmented state| + atol (absolute): with state,
+        # adjoint and parameter gradients in different units the documented accuracy is relative to the largest of them only
+        return [1.0] if exact else UNITS_FULL
+    return UNITS_FULL
+
+
+def cot_choices(fn, exact):
+    return [1.0] if (fn == "solve_ivp" and exact) else COTS_FULL
+
+
+def canon_mode(mode):
+    """the two documented values of symeig's / svd's `mode` ("uppermost" is the documented alias of "uppest")"""
+    m = mode.lower()
+    return "uppest" if m == "uppermost" else m
+
+
+MODE_SPELLINGS = ["lowest", "uppest", "uppermost", "Lowest", "LOWEST", "lOwEsT", "Uppest", "UPPEST", "uPpEsT", "Uppermost", "UPPERMOST",
+                  "upperMost"]
+
+
 def variant(name, mask):
     """apply an upper-case mask (list of 0/1, cycled) to a name"""
     out = []
@@ -282,7 +324,9 @@ class SolveProblem:
         else:
             a = (_orth(g, n) * _rand(g, (n,), 1.0, 3.0)) @ _orth(g, n).T
         self.La = _leaf(a)
-        self.B = _leaf(torch.randn((n, nc), generator=g, dtype=DT) + 0.1)
+        u = float(p.get("unit", 1.0))
+        self.unit = u
+        self.B = _leaf(u * (torch.randn((n, nc), generator=g, dtype=DT) + 0.1))
         if p.get("zeroB"):
             self.B = torch.zeros((n, nc), dtype=DT)
         self.E = None
@@ -294,6 +338,8 @@ class SolveProblem:
                 q = _orth(g, n)
                 self.Lm = _leaf((q * _rand(g, (n,), 0.5, 1.5)) @ q.T)
         self.leaves = [t for t in (self.La, self.B, self.E, self.Lm) if t is not None and t.requires_grad]
+        self.leaf_units = [uu for t, uu in ((self.La, 1.0), (self.B, u), (self.E, 1.0), (self.Lm, 1.0)) if t is not None and t.requires_grad]
+        self.out_units = [u]
 
     def mats(self):
         A = _sym(self.La) if self.sym else self.La
@@ -354,15 +400,18 @@ class SymeigProblem:
             L = torch.eye(n, dtype=DT) + 0.2 * torch.tril(torch.randn((n, n), generator=g, dtype=DT), -1)
             self.Lm = _leaf(L @ L.T)
             core = L @ core @ L.T
-        self.La = _leaf(core)
+        u = float(p.get("unit", 1.0))
+        self.unit = u
+        self.La = _leaf(u * core)
         self.leaves = [t for t in (self.La, self.Lm) if t is not None]
+        self.leaf_units = [u] + ([1.0] if self.Lm is not None else [])
+        self.out_units = [u, 1.0]
 
     def k(self):
         return self.n if self.neig is None else self.neig
 
     def norm_mode(self):
-        m = self.mode.lower()
-        return "uppest" if m == "uppermost" else m
+        return canon_mode(self.mode)
 
     @staticmethod
     def post(evals, evecs):
@@ -416,10 +465,17 @@ class SvdProblem:
         s = torch.arange(k, dtype=DT) * 0.7 + 1.0 + _rand(g, (k,), 0.0, 0.2)
         u = _orth(g, m)[:, :k]
         v = _orth(g, n)[:, :k]
-        self.La = _leaf((u * s) @ v.T)
+        un = float(p.get("unit", 1.0))
+        self.unit = un
+        self.La = _leaf(un * ((u * s) @ v.T))
         self.k = p["k"]
         self.mode = p["mode"]
         self.leaves = [self.La]
+        self.leaf_units = [un]
+        self.out_units = [un, 1.0]
+
+    def norm_mode(self):
+        return canon_mode(self.mode)
 
     def run(self, method, fwd, bck):
         from xitorch import LinearOperator
@@ -433,7 +489,7 @@ class SvdProblem:
     def ref(self):
         u, s, vh = torch.linalg.svd(self.La, full_matrices=False)
         k = self.k
-        if self.mode.lower() == "lowest":
+        if self.norm_mode() == "lowest":
             idx = torch.arange(s.shape[0] - 1, s.shape[0] - 1 - k, -1)   # ascending order of the lowest k
         else:
             idx = torch.arange(k - 1, -1, -1)                              # symeig order: ascending eigenvalues
@@ -453,23 +509,25 @@ class RootProblem:
         q1, q2 = _orth(g, n), _orth(g, n)
         self.K = _leaf((q1 * _rand(g, (n,), 0.8, 1.4)) @ q1.T + 0.15 * (q2 - q2.T))
         self.c = _leaf(_rand(g, (n,), -1.0, 1.0))
-        self.d = _leaf(torch.tensor(0.5, dtype=DT)) if self.name == "equilibrium" else None
+        r = float(p.get("unit", 1.0))       # unit of the residual / of the objective (equilibrium: of the relaxation d)
+        self.unit = r
+        self.d = _leaf(torch.tensor(0.5 * r, dtype=DT)) if self.name == "equilibrium" else None
         self.y0 = torch.zeros((n,), dtype=DT)
         self.leaves = [t for t in (self.K, self.c, self.d) if t is not None]
+        self.leaf_units = [1.0, 1.0] + ([r] if self.d is not None else [])
+        self.out_units = [1.0]
 
-    # the caller's functions (pure functions with explicit parameters)
-    @staticmethod
-    def f_root(y, K, c):
-        return torch.sinh(K @ y) - c
+        # the caller's functions (pure functions with explicit parameters)
+        def f_root(y, K, c):
+            return r * (torch.sinh(K @ y) - c)
 
-    @staticmethod
-    def f_equil(y, K, c, d):
-        return y - d * (torch.sinh(K @ y) - c)
+        def f_equil(y, K, c, d):
+            return y - d * (torch.sinh(K @ y) - c)
 
-    @staticmethod
-    def f_min(y, K, c):
-        z = K @ y
-        return torch.cosh(z).sum() - (c * z).sum()
+        def f_min(y, K, c):
+            z = K @ y
+            return r * (torch.cosh(z).sum() - (c * z).sum())
+        self.f_root, self.f_equil, self.f_min = f_root, f_equil, f_min
 
     def fcn(self):
         return {"rootfinder": self.f_root, "equilibrium": self.f_equil, "minimize": self.f_min}[self.name]
@@ -497,7 +555,11 @@ class IvpProblem:
     def __init__(self, case, g):
         p = case["prob"]
         self.A = _leaf(0.6 * torch.randn((2, 2), generator=g, dtype=DT))
-        self.y0 = _leaf(torch.randn((2,), generator=g, dtype=DT))
+        u = float(p.get("unit", 1.0))
+        self.unit = u
+        self.y0 = _leaf(u * torch.randn((2,), generator=g, dtype=DT))
+        self.leaf_units = [1.0, u]
+        self.out_units = [u]
         steps = torch.tensor(p["steps"], dtype=DT)          # each in [0.2, 0.6], <= 3 steps
         sgn = -1.0 if p["backward_time"] else 1.0
         self.ts = torch.cat([torch.zeros(1, dtype=DT), torch.cumsum(steps, 0)]) * sgn + p["t0"]
@@ -527,7 +589,9 @@ class QuadProblem:
         m = p["m"]
         self.m = m
         self.a = _leaf(_rand(g, (m,), 0.5, 2.0))
-        self.c = _leaf(torch.randn((m,), generator=g, dtype=DT))
+        u = float(p.get("unit", 1.0))
+        self.unit = u
+        self.c = _leaf(u * torch.randn((m,), generator=g, dtype=DT))
         self.j = torch.arange(m, dtype=DT)
 
         def mk(v, form):
@@ -537,6 +601,8 @@ class QuadProblem:
         self.xl = mk(p["xl"], p["xlform"])
         self.xu = mk(p["xu"], p["xuform"])
         self.leaves = [self.a, self.c] + [t for t in (self.xl, self.xu) if isinstance(t, torch.Tensor) and t.requires_grad]
+        self.leaf_units = [1.0, u] + [1.0] * (len(self.leaves) - 2)
+        self.out_units = [u]
         j = self.j
 
         def fcn(x, a, c):
@@ -560,8 +626,12 @@ class McquadProblem:
 
     def __init__(self, case, g):
         p = case["prob"]
-        self.p = _leaf(_rand(g, (2,), 0.5, 1.5))
-        self.q = _leaf(torch.randn((2,), generator=g, dtype=DT))
+        u = float(p.get("unit", 1.0))
+        self.unit = u
+        self.p = _leaf(u * _rand(g, (2,), 0.5, 1.5))
+        self.q = _leaf(u * torch.randn((2,), generator=g, dtype=DT))
+        self.leaf_units = [u, u, 1.0, 1.0]
+        self.out_units = [u]
         self.mu = _leaf(_rand(g, (1,), -0.5, 0.5))
         self.sg = _leaf(_rand(g, (1,), 0.7, 1.3))
         self.x0 = torch.zeros((1,), dtype=DT)
@@ -614,7 +684,11 @@ class InterpProblem:
         self.perm = torch.randperm(nr, generator=g) if p["shuffled"] else torch.arange(nr)
         self.x = xs[self.perm].clone()
         self.xsorted = xs
-        self.y = _leaf(torch.randn((nr,), generator=g, dtype=DT))         # in the order of self.x
+        u = float(p.get("unit", 1.0))
+        self.unit = u
+        self.y = _leaf(u * torch.randn((nr,), generator=g, dtype=DT))         # in the order of self.x
+        self.leaf_units = [u, 1.0]
+        self.out_units = [u]
         lo, hi = float(xs[0]), float(xs[-1])
         self.xq = _leaf(lo + (hi - lo) * (0.02 + 0.96 * torch.rand((nq,), generator=g, dtype=DT)))
         self.y_at_call = p["y_at_call"]
@@ -658,7 +732,11 @@ class SquadProblem:
         full = list(shape)
         pos = self.dim if self.dim >= 0 else len(full) + 1 + self.dim
         full.insert(pos, nx)
-        self.y = _leaf(torch.randn(tuple(full), generator=g, dtype=DT))
+        u = float(p.get("unit", 1.0))
+        self.unit = u
+        self.y = _leaf(u * torch.randn(tuple(full), generator=g, dtype=DT))
+        self.leaf_units = [u]
+        self.out_units = [u]
         self.op = p["op"]
         self.keepdim = p["keepdim"]
         self.leaves = [self.y]
@@ -748,6 +826,20 @@ def _opts_changed(before, now):
     return None
 
 
+def _cotangents(prob, cot, outs, gw):
+    """random normal cotangents of magnitude `cot` for the first output; further outputs (symeig / svd: the eigenvector part) get the
+    magnitude that gives every term of the contraction the same unit  cot * (unit of the first output)"""
+    ou = getattr(prob, "out_units", None) or [1.0] * len(outs)
+    return [torch.randn(o.shape, generator=gw, dtype=DT) * (float(cot) * ou[0] / ou[i]) for i, o in enumerate(outs)]
+
+
+def _contractions(prob, leaves, gw):
+    """random normal contraction of the gradients, each in the unit of its leaf (so that every term of the contracted scalar has the
+    unit of the loss, whatever the units of the data)"""
+    lu = getattr(prob, "leaf_units", None) or [1.0] * len(leaves)
+    return [torch.randn(x.shape, generator=gw, dtype=DT) * lu[i] for i, x in enumerate(leaves)]
+
+
 def evaluate(prob, case, method, fwd, bck, order, wseed, counters=()):
     """counters: recording callables; res["ncalls"] = their call counts after the forward call, the first-order and the
     second-order differentiation (one row per stage reached)"""
@@ -769,7 +861,7 @@ def evaluate(prob, case, method, fwd, bck, order, wseed, counters=()):
     options_intact("forward call")
     mark()
     gw = gen.seeded(wseed)
-    W = [torch.randn(o.shape, generator=gw, dtype=DT) for o in outs]
+    W = _cotangents(prob, case.get("cot", 1.0), outs, gw)
     loss = sum((o * w).sum() for o, w in zip(outs, W))
     res = {"outs": [o.detach().clone() for o in outs], "g1": None, "g2": None, "graph": loss.requires_grad, "ncalls": ncalls}
     if not loss.requires_grad:
@@ -783,7 +875,7 @@ def evaluate(prob, case, method, fwd, bck, order, wseed, counters=()):
     for k in range(2, order + 1):
         # order k: gradient of a fixed random contraction of the order k-1 gradients (order 3 only serves the observation of the
         # callables; its values are compared between two spellings of one method, never with a reference)
-        C = [torch.randn(x.shape, generator=gw, dtype=DT) for x in leaves]
+        C = _contractions(prob, leaves, gw)
         terms = [(c * x).sum() for c, x in zip(C, gk) if x is not None and x.requires_grad]
         if not terms:
             res["g%d" % k] = "nograph"
@@ -795,16 +887,16 @@ def evaluate(prob, case, method, fwd, bck, order, wseed, counters=()):
     return res
 
 
-def evaluate_ref(prob, order, wseed):
+def evaluate_ref(prob, order, wseed, cot=1.0):
     outs = prob.ref()
     gw = gen.seeded(wseed)
-    W = [torch.randn(o.shape, generator=gw, dtype=DT) for o in outs]
+    W = _cotangents(prob, cot, outs, gw)
     loss = sum((o * w).sum() for o, w in zip(outs, W))
     leaves = prob.leaves
     g1 = torch.autograd.grad(loss, leaves, create_graph=(order >= 2), allow_unused=True)
     res = {"outs": [o.detach() for o in outs], "g1": [torch.zeros_like(l) if x is None else x.detach() for x, l in zip(g1, leaves)], "g2": None}
     if order >= 2:
-        C = [torch.randn(x.shape, generator=gw, dtype=DT) for x in leaves]
+        C = _contractions(prob, leaves, gw)
         terms = [(c * x).sum() for c, x in zip(C, g1) if x is not None and x.requires_grad]
         g2 = torch.autograd.grad(sum(terms), leaves, allow_unused=True) if terms else [None] * len(leaves)
         res["g2"] = [torch.zeros_like(l) if x is None else x.detach() for x, l in zip(g2, leaves)]
@@ -856,15 +948,20 @@ def _note(what, q, ratio):
         RATIOS[k] = ratio
 
 
-def compare_ref(res, ref, prob, order, what, labels):
-    """res from evaluate(), ref from evaluate_ref(); tolerances relative to 1 + max|ref|"""
+def compare_ref(res, ref, prob, order, what, labels, cot=1.0):
+    """res from evaluate(), ref from evaluate_ref(); tolerances relative to  unit + max|ref|, where unit is the natural magnitude of the
+    quantity: the unit of the output for values, (cotangent magnitude x unit of the first output) / (unit of the leaf) for the first- and
+    second-order gradients (the contraction of the first-order gradients carries the leaf units, see _contractions)"""
     t1, t2 = prob.tol
+    ou = getattr(prob, "out_units", None) or [1.0] * len(res["outs"])
+    lu = getattr(prob, "leaf_units", None) or [1.0] * len(prob.leaves)
+    lossunit = float(cot) * ou[0]
     tv = getattr(prob, "tolv", t1)
     worst1 = 0.0
-    for o, r in zip(res["outs"], ref["outs"]):
+    for i, (o, r) in enumerate(zip(res["outs"], ref["outs"])):
         if o.shape != r.shape:
             return violation("shape", "%s: output shape %s, reference %s" % (what, tuple(o.shape), tuple(r.shape)), labels), False
-        sc = 1 + float(r.abs().max()) if r.numel() else 1.0
+        sc = ou[i] + float(r.abs().max()) if r.numel() else ou[i]
         err = float((o - r).abs().max()) if r.numel() else 0.0
         _note(what, "value", err / (tv * sc))
         if not err <= tv * sc:
@@ -874,7 +971,7 @@ def compare_ref(res, ref, prob, order, what, labels):
     nonzero = False
     for k, (gk, rk) in enumerate(zip(res["g1"], ref["g1"])):
         gk0 = torch.zeros_like(rk) if gk is None else gk
-        sc = 1 + float(rk.abs().max())
+        sc = lossunit / lu[k] + float(rk.abs().max())
         err = float((gk0 - rk).abs().max())
         nonzero = nonzero or float(rk.abs().max()) > 0
         _note(what, "grad1", err / (t1 * sc))
@@ -893,7 +990,7 @@ def compare_ref(res, ref, prob, order, what, labels):
             t2 = t2 + 100.0 * worst1 * worst1 / 2.2e-16
         for k, (gk, rk) in enumerate(zip(res["g2"], ref["g2"])):
             gk0 = torch.zeros_like(rk) if gk is None else gk
-            sc = 1 + float(rk.abs().max())
+            sc = lossunit / lu[k] + float(rk.abs().max())
             err = float((gk0 - rk).abs().max())
             _note(what, "grad2", err / (t2 * sc))
             if not err <= t2 * sc:
@@ -1493,8 +1590,9 @@ def run_custom(case):
 
     # ---- gradients
     if kind == "closed":
-        ref = evaluate_ref(prob, order, case["seed"] + 1)
-        v, nonzero = compare_ref(res, ref, prob, order, "%s with a closed-form callable" % fn, labels)
+        ref = evaluate_ref(prob, order, case["seed"] + 1, case.get("cot", 1.0))
+        v, nonzero = compare_ref(res, ref, prob, order, "%s with a closed-form callable (data unit %g, cotangent magnitude %g)" % (
+            fn, getattr(prob, "unit", 1.0), case.get("cot", 1.0)), labels, case.get("cot", 1.0))
         if v is not None:
             return v
         if fn in ("symeig", "svd"):
